@@ -11,6 +11,9 @@ pub fn gen(rng: &mut Rng, index: u64) -> String {
     if index % 4 == 3 {
         return gen_graph(rng);
     }
+    if index % 8 == 5 {
+        return gen_conc(rng);
+    }
     gen_hist(rng)
 }
 
@@ -142,6 +145,34 @@ fn graph_geom(rng: &mut Rng, depth: u32) -> Geometry<f64> {
             Geometry::GeometryCollection(GeometryCollection(v))
         }
     }
+}
+
+/// the first operand through its concrete type; a third are degenerate Rect / Triangle / Line values (flat triangles,
+/// zero-width rectangles, zero-length lines), partners overlapping or with a disjoint bounding box
+fn gen_conc(rng: &mut Rng) -> String {
+    let k = *rng.pick(&[3i64, 4, 6]);
+    let a = if rng.chance(1, 3) {
+        let p = tiny(rng, k);
+        let (dx, dy) = *rng.pick(&[(1.0, 0.0), (0.0, 1.0), (1.0, 1.0), (2.0, -1.0)]);
+        let at = |t: f64| Coord { x: p.x + dx * t, y: p.y + dy * t };
+        match rng.below(5) {
+            0 | 1 => Geometry::Triangle(Triangle(at(0.0), at(rng.range(0, 2) as f64), at(rng.range(1, 3) as f64))),
+            2 => Geometry::Rect(Rect::new(p, Coord { x: p.x, y: p.y + rng.range(0, 3) as f64 })),
+            3 => Geometry::Rect(Rect::new(p, Coord { x: p.x + rng.range(0, 3) as f64, y: p.y })),
+            _ => Geometry::Line(Line::new(p, if rng.chance(1, 2) { p } else { at(1.0) })),
+        }
+    } else {
+        let kind = rng.below(10);
+        gen_kind(rng, k, kind, 1)
+    };
+    let b = gen_valid(rng, k);
+    let b = if rng.chance(1, 2) {
+        use geo::algorithm::map_coords::MapCoords;
+        let d = (k + rng.range(2, 6)) as f64;
+        let (sx, sy) = *rng.pick(&[(1.0, 0.0), (0.0, 1.0), (1.0, 1.0), (-1.0, 0.0)]);
+        b.map_coords(|c| Coord { x: c.x + sx * d, y: c.y + sy * d })
+    } else { b };
+    format!("C17.conc {} {}", proto::geom(&a), proto::geom(&b))
 }
 
 fn gen_graph(rng: &mut Rng) -> String {
@@ -294,6 +325,34 @@ fn im_str(m: geo::algorithm::relate::IntersectionMatrix) -> String {
 
 pub fn eval(op: &str, t: &mut Toks) -> R<String> {
     match op {
+        "C17.conc" => {
+            let a = t.geom()?;
+            let b = t.geom()?;
+            macro_rules! conc {
+                ($x:expr) => {{
+                    let x = $x;
+                    let m1 = catch_unwind(AssertUnwindSafe(|| x.relate(&b)));
+                    let m2 = catch_unwind(AssertUnwindSafe(|| PreparedGeometry::from(x).relate(&b)));
+                    let m3 = catch_unwind(AssertUnwindSafe(|| b.relate(x)));
+                    let m4 = catch_unwind(AssertUnwindSafe(|| b.relate(&PreparedGeometry::from(x))));
+                    let m5 = catch_unwind(AssertUnwindSafe(|| a.relate(&b)));
+                    let st = |m: std::thread::Result<geo::algorithm::relate::IntersectionMatrix>| match m { Ok(m) => im_str(m), Err(_) => "panic".to_string() };
+                    format!("{} {} {} {} {}", st(m1), st(m2), st(m3), st(m4), st(m5))
+                }};
+            }
+            Ok(match &a {
+                Geometry::Point(x) => conc!(x),
+                Geometry::Line(x) => conc!(x),
+                Geometry::LineString(x) => conc!(x),
+                Geometry::Polygon(x) => conc!(x),
+                Geometry::MultiPoint(x) => conc!(x),
+                Geometry::MultiLineString(x) => conc!(x),
+                Geometry::MultiPolygon(x) => conc!(x),
+                Geometry::Rect(x) => conc!(x),
+                Geometry::Triangle(x) => conc!(x),
+                Geometry::GeometryCollection(x) => conc!(x),
+            })
+        }
         "C17.hist" => {
             let n = t.usize()?;
             let mut gs: Vec<Geometry<f64>> = vec![];
